@@ -90,6 +90,8 @@ type CtxV struct {
 	Key, Val  Value
 	HasKV     bool
 	Cancel    *Term // symbolic "cancelled" flag (nil: never cancelled)
+	Deadline  *Term // instant reported by Deadline() (nil: no deadline)
+	HasDl     *Term // whether Deadline() reports one
 	Name      string
 	DoneCh    *ChanV
 	CancelObj *Object
